@@ -1015,6 +1015,8 @@ def trunc(x):
     x = R.of(x)
     if x.concrete:
         return int(x.n)
+    if not _isz(x.d) and z3.is_app(x.n) and x.n.decl().kind() == z3.Z3_OP_TO_REAL:
+        return SI(x.n.arg(0))           # already integer-valued (e.g. the result of np.round)
     f = floor(x)
     # toward zero: floor for x >= 0, ceil for x < 0
     isint = R.of(f) == x
